@@ -511,3 +511,71 @@ func baseIs(v ssa.Value, prm *ssa.Parameter) bool {
 	}
 	return false
 }
+
+
+// checkNoNilVersusEmptyLists (C08): hand-written code of the stored types does not tell a nil list from an empty one. The two are
+// the same value in the store (protobuf drops both) but not in a genesis file (amino/JSON writes `[]`, which decodes to an empty,
+// non-nil slice), so a predicate that compares a repeated field with nil answers differently before and after an export/import.
+func checkNoNilVersusEmptyLists(p *Prog, r *Report, kp func(string, string) string, pkgs ...string) {
+	rule := "predicates over stored entries do not tell a nil list from an empty one (the genesis file's [] decodes to an empty, non-nil slice)"
+	n, nBad := 0, 0
+	// the entry-state predicates (Empty / Deactivated of the stored types) and what they call: they decide whether an entry is
+	// absent, a tombstone or active, on both sides of an export/import. (A validator that refuses a nil list refuses an empty one
+	// too on the next line or cannot meet one: transactions decode empty lists to nil.)
+	var roots []*ssa.Function
+	for _, fn := range p.ModFuncs {
+		if fn.Blocks == nil || p.IsGenerated(fn) || !inExactPkgs(fn, pkgs...) || fn.Signature.Recv() == nil {
+			continue
+		}
+		if fn.Name() == "Empty" || fn.Name() == "Deactivated" {
+			roots = append(roots, fn)
+		}
+	}
+	scope := p.ReachFrom(roots, func(f *ssa.Function) bool { return InModule(f) && !p.IsGenerated(f) })
+	for _, fn := range scope.Order {
+		if fn.Blocks == nil || p.IsGenerated(fn) || !inExactPkgs(fn, pkgs...) {
+			continue
+		}
+		for _, b := range fn.Blocks {
+			for _, in := range b.Instrs {
+				bo, ok := in.(*ssa.BinOp)
+				if !ok || (bo.Op != token.EQL && bo.Op != token.NEQ) {
+					continue
+				}
+				x := bo.X
+				if isNilConst(x) {
+					x = bo.Y
+				} else if !isNilConst(bo.Y) {
+					continue
+				}
+				if _, isSl := x.Type().Underlying().(*types.Slice); !isSl {
+					continue
+				}
+				// a field of a struct (receiver, parameter or a value reached from them)
+				fname := ""
+				switch y := x.(type) {
+				case *ssa.UnOp:
+					if fa, ok := y.X.(*ssa.FieldAddr); ok {
+						fname = fieldAddrName(fa)
+					}
+				case *ssa.Field:
+					if st, ok := y.X.Type().Underlying().(*types.Struct); ok && y.Field < st.NumFields() {
+						fname = st.Field(y.Field).Name()
+					}
+				}
+				if fname == "" {
+					continue
+				}
+				n++
+				nBad++
+				r.Fail(kp("NULLABLE", FuncName(fn)+"#nil-vs-empty:"+fname), rule, p.Pos(bo.Pos()),
+					fmt.Sprintf("%s compares the list %s with nil: an entry whose list is nil in the store comes back from a genesis file with an empty, non-nil list, so the predicate changes its answer across export/import", FuncName(fn), fname))
+			}
+		}
+	}
+	if nBad == 0 {
+		r.OK(kp("NULLABLE", "nil-vs-empty-lists#none"), rule, strings.Join(pkgs, ", "), fmt.Sprintf("%d entry-state predicates (Empty/Deactivated), %d functions reachable from them: no comparison of a repeated field with nil", len(roots), len(scope.Order)))
+	}
+	r.Floor("entry-state-predicates", len(roots), 1)
+	_ = n
+}
